@@ -141,7 +141,7 @@ func (a *Action) Exec(bs map[string]interface{}) ExecResult {
 			return ExecResult{Outcome: "fail"}
 		case "nil-bs":
 			return ExecResult{Outcome: "null"}
-		case "no-events":
+		case "no-events", "no-traces":
 			// what such an execution means is not documented: only totality is asserted
 			return ExecResult{Outcome: "unknown"}
 		case "same":
